@@ -1,6 +1,7 @@
 (** C16 — the live terminal view converges to the true result for any refresh schedule. *)
 From Coq Require Import List ZArith NArith Bool Lia.
 From AG Require Import Str F64 Value Json Expr Ops Pipeline Term Term_proofs Term_scroll_proofs Compile_proofs Rerun_proofs.
+From AG Require Generated.
 Import ListNotations.
 Open Scope nat_scope.
 
@@ -19,6 +20,29 @@ Theorem C16_frames_converge : forall h w frames last,
   screen_text sc = map trim_end last ++ repeat [] (h - length last) /\ sc_r sc = length last /\ sc_c sc = 0.
 Proof. exact frames_converge. Qed.
 Print Assumptions C16_frames_converge.
+
+(** the frames of the theorem are lists of whole lines.  The one frame that is not a table -- the
+    placeholder the machine-readable modes show until input ends, re-read from src/printer.rs on
+    every run -- is such a frame too: one printable line and its newline (fix fa51386) ... *)
+Theorem C16_placeholder_is_a_frame :
+  exists line, Generated.agg_placeholder = frame_text [line] /\ Forall printable line /\ length line = 55.
+Proof.
+  exists (removelast Generated.agg_placeholder). split; [vm_compute; reflexivity|]. split; [|vm_compute; reflexivity].
+  apply Forall_forall. intros c Hc. unfold printable.
+  assert (H : forallb (fun c => (32 <=? c)%N) (removelast Generated.agg_placeholder) = true) by (vm_compute; reflexivity).
+  rewrite forallb_forall in H. apply N.leb_le. apply H. exact Hc.
+Qed.
+Print Assumptions C16_placeholder_is_a_frame.
+
+(** ... and it has to be: the same text WITHOUT its newline (the code before the fix), drawn twice
+    and followed by the final rows, leaves the rows in the middle of the line under the residue *)
+Example C16_frame_without_newline_refuted :
+  let ph := removelast Generated.agg_placeholder in
+  let bytes := render_frames [] [ph; ph; frame_text [lit "k=a n=1"]] in
+  screen_text (term_run (blank_screen 4 80) (lex (onlcr bytes))) <> [lit "k=a n=1"; []; []; []] /\
+  screen_text (term_run (blank_screen 4 80) (lex (onlcr (render_frames [] [Generated.agg_placeholder; Generated.agg_placeholder; frame_text [lit "k=a n=1"]]))))
+    = [lit "k=a n=1"; []; []; []].
+Proof. vm_compute. split; [discriminate|reflexivity]. Qed.
 
 (** the renderer emits nothing outside printable text, CR, LF, ESC[2K and ESC[1A *)
 Theorem C16_alphabet : forall frames,
